@@ -142,6 +142,20 @@ Pairs and optional strings (added for `FllImporter`):
   or `None`) stores `some e'` with `e' : Option T` (`return None` stores `some none`, so that "returned None" and
   "did not return" differ).
 
+Constructs added for the import side of term parameters (`Term._parse`, `configure`, `Op.as_identifier`; profiles
+`termparse.py`):
+
+* a list comprehension with `if` clauses (pure conditions): the iterable is filtered first (`List.filter`), then mapped;
+  a comprehension whose *element can raise* (`[to_float(x) for x in words]`) is `List.mapM` in `Py.M`: the elements are
+  evaluated left to right and the first exception ends the comprehension; with `iter_view` for `String` a string is
+  iterated by its characters;
+* `t1, …, tn = e` for a list-valued `e` whose targets are declared locals or attributes kept as locals (`self.left` is the
+  local `self_left`): `e` is evaluated, then unpacked - `ValueError` unless it has exactly `n` elements - and the targets
+  are assigned (tried only when the right-hand side is not a translation-time constant, so older profiles are unaffected);
+* `del l[-1]` on a list local is `l.pop()` without the value; `n % k` for a natural `n` and a positive literal `k`;
+* `a or b` for two pure strings is the string `a` unless it is empty, else `b` (its truth value is `a != "" or b != ""`);
+* in an external pattern a constant matches a constant of the *same type* only (`1.0` is not `1` and not `True`).
+
 Anything outside the subset raises `Untranslatable` - the tie is then reported as broken (never silently skipped).
 """
 from __future__ import annotations
@@ -270,7 +284,7 @@ def match_pattern(pat, node, binds):
         elif isinstance(a, ast.AST):
             if not isinstance(b, ast.AST) or not match_pattern(a, b, binds):
                 return False
-        elif a != b:
+        elif a != b or type(a) is not type(b):      # (the constants `1`, `1.0` and `True` are different patterns)
             return False
     return True
 
@@ -601,6 +615,9 @@ class Fn:
             if isinstance(node.op, ast.Or) and len(vals) == 2 and vals[0].ty in (f"Option {vals[1].ty}", f"Option {paren(vals[1].ty)}") and vals[1].pure:
                 # `o or default` for an optional object without `__bool__` / `__len__`: the object, or the default for None
                 return self.bind1(vals[0], lambda x: f"(({x}).getD {paren(vals[1].term)})", vals[1].ty)
+            if isinstance(node.op, ast.Or) and len(vals) == 2 and vals[0].ty == vals[1].ty == "String" and vals[0].pure and vals[1].pure:
+                # `a or b` for two strings: `a` unless it is empty (its truth value is that of `a != "" or b != ""`)
+                return E(f"(if {paren(vals[0].term)} != \"\" then {vals[0].term} else {vals[1].term})", "String")
             tys = {v.ty for v in vals}
             if tys != {"Bool"}:
                 vals = [self.truthy(v) for v in vals]  # only used in boolean positions (checked by callers)
@@ -687,6 +704,10 @@ class Fn:
                 return self.bind2(l, r, lambda a, b: f"({a} ^ {b})", ty)
             if isinstance(node.op, ast.Add) and l.ty == r.ty == "String":
                 return self.bind2(l, r, lambda a, b: f"({a} ++ {b})", "String")
+            if (isinstance(node.op, ast.Mod) and l.ty == r.ty == "Nat" and isinstance(node.right, ast.Constant)
+                    and isinstance(node.right.value, int) and node.right.value > 0):
+                # `n % k` for a natural n and a positive literal k (no ZeroDivisionError, no negative operand)
+                return self.bind2(l, r, lambda a, b: f"({a} % {b})", "Nat")
             if isinstance(node.op, ast.BitAnd) and l.ty == r.ty == "Nat":
                 return self.bind2(l, r, lambda a, b: f"({a} &&& {b})", "Nat")
             if isinstance(node.op, ast.BitOr) and l.ty == r.ty == "Nat":
@@ -776,26 +797,38 @@ class Fn:
             return E("[" + ", ".join(x.term for x in es) + "]", f"List {paren(es[0].ty)}")
         if isinstance(node, ast.ListComp):
             g = node.generators[0]
-            if len(node.generators) != 1 or g.ifs or g.is_async or not isinstance(g.target, ast.Name):
+            if len(node.generators) != 1 or g.is_async or not isinstance(g.target, ast.Name):
                 raise Untranslatable(f"comprehension shape: {ast.unparse(node)}")
             it = self.iterator(g.iter)
             v = g.target.id
             if v in LEAN_RESERVED:
                 # the variable of a comprehension that is a Lean keyword (`term`) is renamed like a declared local
-                for n in ast.walk(node.elt):
-                    if isinstance(n, ast.Name) and n.id == v:
-                        n.id = mangle(v)
+                for part in [node.elt] + list(g.ifs):
+                    for n in ast.walk(part):
+                        if isinstance(n, ast.Name) and n.id == v:
+                            n.id = mangle(v)
                 v = mangle(v)
             if v in self.locals or v in self.ptypes or not it.ty.startswith("List "):
                 raise Untranslatable(f"comprehension variable / iterable: {ast.unparse(node)}")
             self.ptypes[v] = elem_type(it.ty)
             try:
                 elt = self.ce(node.elt)
+                conds = [self.truthy(self.ce(c)) for c in g.ifs]
             finally:
                 del self.ptypes[v]
+            if not all(c.pure for c in conds):
+                raise Untranslatable(f"comprehension condition that can raise: {ast.unparse(node)}")
+            ety = elem_type(it.ty)
+
+            def src(x):
+                # `if c` clauses: the elements are filtered first (a condition is evaluated before the element)
+                for c in conds:
+                    x = f"(List.filter (fun ({v} : {ety}) => {c.term}) {x})"
+                return x
             if not elt.pure:
-                raise Untranslatable(f"comprehension element that can raise: {ast.unparse(node.elt)}")
-            return self.bind1(it, lambda x: f"(List.map (fun ({v} : {elem_type(it.ty)}) => {elt.term}) {x})", f"List {paren(elt.ty)}")
+                # an element that can raise: evaluated left to right, the first exception ends the comprehension
+                return self.bind1(it, lambda x: f"(List.mapM (fun ({v} : {ety}) => {elt.term}) {src(x)})", f"List {paren(elt.ty)}", partial=True)
+            return self.bind1(it, lambda x: f"(List.map (fun ({v} : {ety}) => {elt.term}) {src(x)})", f"List {paren(elt.ty)}")
         if isinstance(node, ast.DictComp):
             g = node.generators[0]
             tg = g.target
@@ -994,6 +1027,9 @@ class Fn:
                 try:
                     vals = list(self.const_of(s.value))
                 except KeyError as ex:
+                    unpacked = self.unpack_list(t, s.value, after)
+                    if unpacked is not None:
+                        return unpacked
                     raise Untranslatable(f"tuple assignment of a non-constant: {ast.unparse(s)}") from ex
                 if len(vals) != len(t.elts) or not all(isinstance(e, ast.Name) for e in t.elts):
                     raise Untranslatable("tuple assignment shape")
@@ -1084,6 +1120,11 @@ class Fn:
                         return f"let σ := {{ σ with {loc} := {{ σ.{loc} with {t.attr} := {wrap(paren(e.term))} }} }}\n{after()}"
                     return f"{self.lift(e.term)} >>= fun v =>\nlet σ := {{ σ with {loc} := {{ σ.{loc} with {t.attr} := {wrap('v')} }} }}\n{after()}"
             raise Untranslatable(f"assignment target {ast.unparse(t)}")
+        if (isinstance(s, ast.Delete) and len(s.targets) == 1 and isinstance(s.targets[0], ast.Subscript)
+                and isinstance(s.targets[0].slice, ast.UnaryOp) and isinstance(s.targets[0].slice.op, ast.USub)
+                and isinstance(s.targets[0].slice.operand, ast.Constant) and s.targets[0].slice.operand.value == 1):
+            # `del l[-1]` is `l.pop()` without the value (IndexError on an empty list)
+            return self.pop_stmt(s.targets[0].value, lambda x: "", rest, k, loopk, brk)
         if isinstance(s, ast.AugAssign) and isinstance(s.target, ast.Subscript):
             # l[i] += e : load l[i], evaluate e, combine, store (the index expression has no effect but exceptions)
             load = ast.Subscript(value=s.target.value, slice=s.target.slice, ctx=ast.Load())
@@ -1321,6 +1362,29 @@ class Fn:
             self.aux.append(f"def {ln} : Nat → {self.name}.S → {self.mty()}\n  {fuel0}\n  | fuel + 1, σ =>\n{ind(step, 4)}")
             return f"{ln} ({fuel}) σ >>= fun σ =>\n{after()}"
         raise Untranslatable(f"statement {type(s).__name__}: {ast.unparse(s)[:60]}")
+
+    def unpack_list(self, t, value, after):
+        """`a, self.b, c = e` for a list-valued `e`: `e` is evaluated, unpacked (`ValueError` unless it has exactly as many
+        elements as there are targets), then the targets - declared locals or attributes kept as locals `self_b` - are
+        assigned left to right.  None when the statement does not have this shape."""
+        names = []
+        for e in t.elts:
+            nm = e.id if isinstance(e, ast.Name) else (ast.unparse(e).replace(".", "_") if isinstance(e, ast.Attribute) else None)
+            if nm is None or nm not in self.locals or nm in self.alias or self.alias_of_list(nm):
+                return None
+            names.append(nm)
+        if len(set(names)) != len(names):
+            return None
+        try:
+            v = self.ce(value)
+        except Untranslatable:
+            return None
+        if not v.ty.startswith("List ") or any(self.locals[n] != elem_type(v.ty) for n in names):
+            return None
+        vs = [f"u{i}" for i in range(len(names))]
+        upd = ", ".join(f"{n} := {u}" for n, u in zip(names, vs))
+        return (f"{self.lift(v.m())} >>= fun v =>\nmatch v with\n| [{', '.join(vs)}] =>\n  let σ := {{ σ with {upd} }}\n{ind(after(), 2)}\n"
+                f"| _ => {self.err('value')}")
 
     def store_index(self, t, e, after):
         """`l[i] = e` on a list local: `e`, then `i`, then the update (IndexError out of range)"""
